@@ -912,6 +912,10 @@ def oracle_C13(an):
             ty = 1 if op == "trigr" else 3 if op == "trigt" else int(t[2])
             if lockfail:
                 continue
+            # accepted or refused, the call leaves nothing behind: a lock it took is released again
+            if an.ev[li] and an.ev[li][0][0] == "L" and not any(e[0] == "U" for e in an.ev[li]):
+                v.append("trigger at op %s (%d of %d waiting) took the mutex and returned %d without releasing it" % (l.op, len(queue), cap, l.ret))
+                return v
             if len(queue) < cap:
                 queue.append((c, ty))
                 exp = 0
@@ -1153,7 +1157,10 @@ def oracle_C15(an):
         byop.setdefault(an.opno(li), []).append(li)
     for k, idxs in byop.items():
         t = an.optext[k].split()
-        if t[0] != "drain" or t[2] != "1" or t[3] != "1" or len(t) > 4:
+        if t[0] != "drain" or t[2] != "1" or t[3] != "1":
+            continue
+        # default answers, or one constant final answer for every handler (ERROR, DATA_OK, OK, HOLD_EXIT_*, PRINT_CMD_LIST_OK)
+        if len(t) > 4 and not (len(t) == 5 and re.fullmatch(r"h=(-1|0|3|5|6|7)", t[4])):
             continue
         last = an.lines[idxs[-1]]
         # linear bound on the calls a drain may need: every input byte costs one read step plus one
